@@ -9,7 +9,7 @@ import checks.pkt as PK
 
 TRACE = PK.TRACE
 CHECKER = PK.CHECKER + '; generator: Setup_MC.tla with Setup_MC_{sizes,shapes,mutations}.cfg'
-C01_RULES = PK.C01_RULES | {'Locality', 'LocalityCount', 'PacketBitsConsumed', 'SameSpectrumSamePcm', 'FloorPostsAsSpecified', 'FloorCurveAsSpecified', 'ResidueAsSpecified', 'CouplingAsSpecified', 'FloorProductAsSpecified'}
+C01_RULES = PK.C01_RULES | {'RefusedInitStaysRefused', 'Locality', 'LocalityCount', 'PacketBitsConsumed', 'SameSpectrumSamePcm', 'FloorPostsAsSpecified', 'FloorCurveAsSpecified', 'ResidueAsSpecified', 'CouplingAsSpecified', 'FloorProductAsSpecified'}
 
 def gen_cases(families=('sizes', 'shapes', 'mutations', 'residue')):
     out = {}; stats = dict(states=0, transitions=0, runs={})
@@ -59,6 +59,7 @@ def toks(fields): return ' '.join(f'{v}:{n}' for v, n in fields)
 def scn_from_case(rng, fam, i, c, nrand=3, probes=True):
     bs0, bs1 = 1 << c['e0'], 1 << c['e1']
     ls = [f"snew 0 {bs0} {bs1} {c['ch']}", f"shdr 0 0 {1 if c['idok'] else 0} {toks(c['id'])}", 'scom 0', f"shdr 0 2 {1 if c['ok'] else 0} {toks(c['setup'])}", 'pinit 0']
+    if not c['ok']: ls.append('pinit 0')      # a set-up the decoder may refuse only when it builds its codebooks: asked twice, it must refuse twice
     k = 0
     for a in c['audio']:
         probe = (f"fx={','.join(map(str, a['fit']))} yx={','.join(map(str, a['yc']))} " if (a.get('fit') and probes) else '')
